@@ -82,7 +82,11 @@ func ParsePath(path string) (PathType, PathSubType, error) {
 
 // GetRepo returns repo name
 func GetRepo(path string) (string, error) {
-	re := regexp.MustCompile("^.+/repositories/(.+)/(?:_manifests|_layers|_uploads)")
+	// Lazy quantifiers: the repository starts after the first "/repositories/"
+	// and ends before the first layout directory (a repository component can
+	// not start with '_'), so repositories with a "repositories" component and
+	// tags named like a layout directory are extracted correctly.
+	re := regexp.MustCompile("^.+?/repositories/(.+?)/(?:_manifests|_layers|_uploads)(?:/|$)")
 	matches := re.FindStringSubmatch(path)
 	if len(matches) < 2 {
 		return "", InvalidRegistryPathError{_repositories, path}
